@@ -225,8 +225,20 @@ def _cae_sample(ctx, hfn):
         return (False, 'sample redundancy searches another list')
     if not find(ctx, hfn['body'], M('checked_sub', L('i'), K(1))):
         return (False, 'before the first sample point nothing is redundant (checked_sub expected)')
-    if not find(ctx, hfn['body'], M('map_or', ANY(), K(False), ANY())):
+    none_false = bool(find(ctx, hfn['body'], M('map_or', ANY(), K(False), ANY())))
+    if not none_false:
+        def vm(n, anc, acc=[]):
+            return None
+        for (n, _a) in find(ctx, hfn['body'], ANY()):
+            n = strip(n)
+            if isinstance(n, dict) and n.get('k') == 'match' and not n.get('src', '').startswith('TryDesugar'):
+                for a in n['arms']:
+                    if _pat_name(a['pat']) == 'None' and K(False).m(ctx, a['body']):
+                        none_false = True
+    if not none_false:
         return (False, 'no existing sample point must mean "not redundant"')
+    if not find(ctx, hfn['body'], M('is_redundant', L('self'), ANY())):
+        return (False, 'the new sample point is not compared with the active one')
     return (True, '')
 
 
@@ -239,7 +251,7 @@ def run_c12(facts, out):
     if b is not None:
         # is_nan test dominates TimingPoint::new
         nanb = [bb for bb, t in b.calls() if callee_of(t) and callee_of(t)['name'] == 'is_nan']
-        newb = [(bb, t) for bb, t in b.calls() if callee_of(t) and callee_of(t)['path'] == CP + 'timing::TimingPoint::new']
+        newb = [(bb, t) for bb, t in b.calls() if callee_of(t) and facts.ref_path(callee_of(t)['path']) == CP + 'timing::TimingPoint::new']
         out.anchor('SS-C12', 'TimingPoint::new call in the parser', len(newb) == 1, '%d' % len(newb))
         for bb, t in newb:
             ok = False
@@ -303,7 +315,7 @@ def run_c12(facts, out):
     cb = facts.body(conv)
     out.anchor('SS-C12', 'From<TimingPointsState>', cb is not None)
     if cb is not None:
-        flb = [bb for bb, t in cb.calls() if callee_of(t) and callee_of(t)['path'] == fl]
+        flb = [bb for bb, t in cb.calls() if callee_of(t) and facts.ref_path(callee_of(t)['path']) == fl]
         # first read of state.control_points
         reads = []
         for bi, blk in enumerate(cb.blocks):
@@ -471,13 +483,14 @@ def run_c14(facts, out):
     nc = struct_field_inits(hfn, 'section::hit_objects::circle::HitObjectCircle', 'new_combo')
     if nc:
         e = nc[0][0]
-        ok = bool(find(ctx, e, M('first_object', L('state')))) and bool(find(ctx, e, M('last_object_was_spinner', L('state')))) \
+        first = OR(M('first_object', L('state')), M('is_none', F(L('state'), 'last_object')))
+        ok = bool(find(ctx, e, first)) and bool(find(ctx, e, M('last_object_was_spinner', L('state')))) \
             and bool(find(ctx, e, L('new_combo')))
         out.add('SS-C14', HITOBJ, 'forced-new-combo', '%s:%d' % (b.file, nc[0][1]), ok,
                 '' if ok else 'new_combo must be `first_object || last_object_was_spinner || flag`', ordinal=False)
     co = struct_field_inits(hfn, 'section::hit_objects::circle::HitObjectCircle', 'combo_offset')
     if co:
-        ok = IF(L('new_combo'), CONTAINS(L('combo_offset')), CONTAINS(K(0))).m(ctx, co[0][0])
+        ok = VIA(IF(L('new_combo'), CONTAINS(L('combo_offset')), CONTAINS(K(0)))).m(ctx, co[0][0])
         out.add('SS-C14', HITOBJ, 'combo-offset-only-with-new-combo', '%s:%d' % (b.file, co[0][1]), ok,
                 '' if ok else 'combo offset must count only together with the new-combo flag', ordinal=False)
     sp = struct_field_inits(hfn, 'section::hit_objects::spinner::HitObjectSpinner', 'new_combo')
@@ -507,7 +520,7 @@ def run_c15(facts, out):
         return
     sortb = [(bb, t) for bb, t in b.calls() if callee_of(t) and callee_of(t)['name'] in
              ('sort_by', 'sort_unstable_by', 'sort', 'sort_by_key', 'sort_unstable', 'sort_unstable_by_key', 'sort_by_cached_key')]
-    ppb = [(bb, t) for bb, t in b.calls() if callee_of(t) and callee_of(t)['name'] == 'post_process_breaks']
+    ppb = [(bb, t) for bb, t in b.calls() if callee_of(t) and facts.ref_name(callee_of(t)) == 'post_process_breaks']
     durb = [(bb, t) for bb, t in b.calls() if callee_of(t) and callee_of(t)['name'] in ('duration_with_bufs', 'end_time_with_bufs',
                                                                                             'timing_point_at', 'sample_point_at')]
     out.anchor('SS-C15', 'sort / break post-processing / velocity loop calls', len(sortb) == 1 and len(ppb) == 1 and len(durb) >= 3,
@@ -573,6 +586,25 @@ def run_curve_siblings(facts, out):
             p1 = find(ctx, h['body'], C('calculate_path', L('mode'), L('points'), L('bufs'), ANY()))
             p2 = find(ctx, h['body'], C('calculate_length', L('bufs'), L('expected_len'), L('optimized_len')))
             ok = len(p1) == 1 and len(p2) == 1
+            if not ok:
+                # one level of helper: f(mode, points, expected_len, bufs) holding the two calls
+                for (n, _a) in find(ctx, h['body'], ANY()):
+                    n = strip(n)
+                    if isinstance(n, dict) and n.get('k') == 'call' and n['f'].get('k') == 'path' \
+                            and n['f'].get('def') in facts.hir and len(n['args']) == 4:
+                        names = []
+                        for a_ in n['args']:
+                            a2 = strip(a_)
+                            names.append(a2.get('name') if a2.get('k') == 'local' else None)
+                        h3 = facts.hir[n['f']['def']]
+                        ps = [p_.get('name') for p_ in h3['params']]
+                        if set(names) == {'mode', 'points', 'expected_len', 'bufs'} and len(ps) == 4:
+                            ren = dict(zip(names, ps))
+                            c3 = Ctx(facts, H.binding_inits(h3))
+                            q1 = find(c3, h3['body'], C('calculate_path', L(ren['mode']), L(ren['points']), L(ren['bufs']), ANY()))
+                            q2 = find(c3, h3['body'], C('calculate_length', L(ren['bufs']), L(ren['expected_len']), ANY()))
+                            if len(q1) == 1 and len(q2) == 1:
+                                ok = True
             body = facts.body(CUR + 'Curve::new' if name == 'Curve::new' else bfn)
             out.add('SS-C18', body.path, 'constructor-calls', '%s:%d' % (body.file, body.line), ok,
                     '' if ok else ('the curve constructor must call calculate_path(mode, points, bufs, ..) and '
@@ -757,10 +789,28 @@ def run_c20(facts, out):
     out.anchor('SS-C20', 'encoder callers slider_events / juicestream_events', f1 is not None and f2 is not None)
     if f1 is not None and f2 is not None:
         i1, i2 = H.binding_inits(f1), H.binding_inits(f2)
+        def local_callees(h):
+            res = set()
+
+            def v(n, anc):
+                if n.get('k') == 'call' and n['f'].get('k') == 'path' and n['f'].get('def') in facts.hir:
+                    res.add(n['f']['def'])
+                if n.get('k') == 'mcall' and n.get('def') in facts.hir:
+                    res.add(n['def'])
+            H.walk(h['body'], v)
+            return res
+        shared = local_callees(f1) & local_callees(f2)
+        shared_inits = {}
+        for sh in shared:
+            for k_, v_ in H.binding_inits(facts.hir[sh]).items():
+                shared_inits.setdefault(k_, []).extend(v_)
         for nm in ('dist', 'span_count', 'span_duration', 'tick_dist_multiplier'):
             a = [canon(x) for x in i1.get(nm, [])]
             bq = [canon(x) for x in i2.get(nm, [])]
             ok = bool(a) and a == bq
+            if not a and not bq and shared:
+                # both callers obtain it from the same helper: identical by construction
+                ok = True
             out.add('SS-C20', 'encode::juicestream_events', 'same-derivation:' + nm, 'src/encode.rs', ok,
                     '' if ok else '`%s` is derived differently in slider_events and juicestream_events' % nm, ordinal=False)
         for nm, h in (('encode::slider_events', f1), ('encode::juicestream_events', f2)):
@@ -768,6 +818,11 @@ def run_c20(facts, out):
             pat = C('SliderEventsIter', L('start_time'), L('span_duration'), F(L('slider'), 'velocity'), L('tick_dist'),
                     L('dist'), L('span_count'), L('ticks'))
             ok = bool(find(ctx, h['body'], pat))
+            if not ok:
+                for sh in shared:
+                    c3 = Ctx(facts, H.binding_inits(facts.hir[sh]))
+                    if find(c3, facts.hir[sh]['body'], pat):
+                        ok = True
             out.add('SS-C20', nm, 'constructor-args', 'src/encode.rs', ok,
                     '' if ok else 'SliderEventsIter::new is not called with (start_time, span_duration, velocity, tick_dist, dist, span_count, ticks)',
                     ordinal=False)
